@@ -10,6 +10,8 @@ RULE = ('generated programs (depth <= 4) that place numbered markers - declarati
         '@media/@supports/unknown at-rules, @font-face, @keyframes, @at-root, mixin bodies, @content blocks, @if/@else/@each/@for '
         'bodies, and files loaded by @use, @import (top level and nested in a rule) and meta.load-css; containers are also combined '
         'in ways Sass rejects (at-rules, rules and comments inside a nested property block, declarations at the root) because '
+        '"appears or fails" must hold there too; rules whose selector is a placeholder contain @at-root, @font-face, @keyframes '
+        '(which escape the selector and must appear) and @error (which must fail) '
         '"appears or fails" must hold there too.  In a third of the programs one reached statement position holds an @error.  The '
         'model computes how often evaluation reaches every marker (loop multiplicities, dead @if branches).  Distinct by program text; '
         'non-trivial = at least one marker is reached inside two or more nested containers.  Oracle: status ok => every reached marker '
@@ -21,7 +23,7 @@ LEVEL_NOTE = ('Trusted: the reachability model (constant conditions, fixed loop 
               'legitimately omits: placeholders, null values, empty rules, compressed style, comments in functions.')
 TECHNIQUE = 'runtime monitoring: marker-conservation oracle over generated programs plus dropped-item events from hooks'
 
-ROOT, RULE, PROP_CTX, FONT = 'root', 'rule', 'propblock', 'fontface'
+ROOT, RULE, PROP_CTX, FONT, PH, PHROOT = 'root', 'rule', 'propblock', 'fontface', 'placeholder-rule', 'at-root-below-placeholder'
 
 
 class G:
@@ -35,6 +37,7 @@ class G:
         self.error = None    # (id, path, multiplicity)
         self.want_error = rng.random() < 0.33
         self.file_mult = 1   # how often the file being generated is executed
+        self.under_ph = 0    # > 0 while generating below a rule whose selector is a placeholder
 
     def nid(self):
         self.n += 1
@@ -43,6 +46,14 @@ class G:
     def marker(self, ctx, path, mult):
         r = self.rng
         kinds = ['atmark', 'comment', 'bodymark']
+        if ctx == PH:
+            kinds = ['decl', 'atmark', 'comment']
+        if ctx == FONT and self.under_ph:
+            kinds = ['decl']          # an at-rule with a rule inside would get the placeholder selector again
+        if ctx == PHROOT:
+            # rsass keeps body-less at-rules and comments of an @at-root block in the enclosing (placeholder) rule; only style
+            # rules and what is inside them certainly escape
+            kinds = ['bodymark']
         if ctx in (RULE, PROP_CTX, FONT):
             kinds += ['decl', 'decl', 'decl']
         if ctx == ROOT and r.random() < 0.08:
@@ -52,14 +63,15 @@ class G:
         if self.want_error and self.error is None and mult > 0 and r.random() < 0.15:
             self.error = (i, path, mult)
             return '@error "e%d";' % i
-        self.markers.append((i, k, path, mult))
+        # what stands directly in a rule whose selector is a placeholder is legitimately omitted: not expected in the output
+        self.markers.append((i, k, path, 0 if ctx == PH else mult))
         if k == 'decl':
             return 'mk%d: %d;' % (i, i)
         if k == 'atmark':
             return '@mark mk%d;' % i
         if k == 'comment':
             return '/* mk%d */' % i
-        inner = 'mk%d: %d;' % (i, i) if ctx in (RULE, PROP_CTX) else '.b%d { mk%d: %d; }' % (i, i, i)
+        inner = 'mk%d: %d;' % (i, i) if ctx in (RULE, PROP_CTX, PH) else '.b%d { mk%d: %d; }' % (i, i, i)
         return '@media (min-width: %dpx) { %s }' % (i, inner)
 
     def body(self, ctx, path, mult, depth):
@@ -76,7 +88,12 @@ class G:
         r = self.rng
         opts = ['if-true', 'if-false', 'else', 'each', 'for', 'mixin', 'content', 'load-css', 'media', 'supports', 'unknown']
         if ctx in (ROOT, RULE):
-            opts += ['rule', 'rule', 'rule', 'import']
+            opts += ['rule', 'rule', 'rule', 'import', 'ph-rule']
+        if ctx == PH:
+            # only what escapes the placeholder selector (or must fail) is interesting below a placeholder rule
+            opts = ['at-root', 'at-root', 'font-face', 'keyframes', 'if-true', 'each', 'mixin', 'content']
+        if ctx == PHROOT:
+            opts = ['rule', 'rule', 'media', 'supports', 'if-true', 'each', 'mixin', 'content']
         if ctx == RULE:
             opts += ['prop', 'prop', 'at-root']
         if ctx == PROP_CTX:
@@ -92,6 +109,12 @@ class G:
         if k == 'rule':
             sel = r.choice(['.c%d' % i, '&.c%d' % i if ctx == RULE else '.c%d' % i, 'a.c%d, b.c%d' % (i, i), '> .c%d' % i if ctx == RULE else 'p.c%d' % i])
             return '%s { %s }' % (sel, self.body(RULE, p, mult, d))
+        if k == 'ph-rule':
+            self.under_ph += 1
+            try:
+                return '%s { %s }' % (r.choice(['%%ph%d' % i, '%%ph%d, %%qh%d' % (i, i), '.c%d %%ph%d' % (i, i)]), self.body(PH, p, mult, d))
+            finally:
+                self.under_ph -= 1
         if k == 'prop':
             return 'p%d: { %s }' % (i, self.body(PROP_CTX, p, mult, d))
         if k == 'media':
@@ -105,7 +128,7 @@ class G:
         if k == 'keyframes':
             return '@keyframes k%d { from { %s } 50%% { %s } }' % (i, self.body(FONT, p, mult, 4), self.body(FONT, p, mult, 4))
         if k == 'at-root':
-            return '@at-root { %s }' % self.body(ROOT, p, mult, d)
+            return '@at-root { %s }' % self.body(PHROOT if ctx in (PH, PHROOT) else ROOT, p, mult, d)
         if k == 'if-true':
             return '@if 1 < 2 { %s }' % self.body(ctx, p, mult, d)
         if k == 'if-false':
